@@ -320,16 +320,14 @@ class Validator:
 
     def tables(self, rows=R):
         ts = {}
-        for a in self.atoms:
-            if a.kind == "prim":
-                continue
-            tid = self.tid_of[a.name]
+        for name_ in sorted(self.atoms.types):
+            tid = self.tid_of[name_]
             if tid not in ts:
                 f = self.names[tid]
-                at, rt = self.atoms.types[a.name]
+                at, rt = self.atoms.types[name_]
                 coltypes = list(at) + [rt if rt is not None else "id"]
                 if len(coltypes) != f["func_cols"]:
-                    raise model.ModelError("table %s has %d function columns, the generator expected %d" % (a.name, f["func_cols"], len(coltypes)))
+                    raise model.ModelError("table %s has %d function columns, the generator expected %d" % (name_, f["func_cols"], len(coltypes)))
                 ts[tid] = model.Table(tid, f["func_cols"], f["can_subsume"], rows, name=f["name"], coltypes=coltypes)
         return ts
 
@@ -347,6 +345,10 @@ class Validator:
         s.set("timeout", timeout_ms)
         t0 = time.time()
         r = s.check()
+        if r == z3.unknown and timeout_ms >= 120000:
+            # a loaded machine is not a verdict: one retry with five times the budget
+            s.set("timeout", timeout_ms * 5)
+            r = s.check()
         self.solver_s += time.time() - t0
         self.queries += 1
         return r
@@ -485,10 +487,8 @@ class Validator:
             return x
         small = {}
         need = 1
-        for a in self.atoms:
-            if a.kind == "prim":
-                continue
-            tid = self.tid_of[a.name]
+        for name_ in sorted(self.atoms.types):
+            tid = self.tid_of[name_]
             small[tid] = [(k, v) for k, v in sorted(cdb.get(tid, {}).items(), key=repr) if all(gen.is_small(x) for x in k)]
             need = max(need, len(small[tid]))
         if need > 8:
